@@ -13,10 +13,14 @@ package main
 //     Thorough tier: the same hammer built with -race, DATA RACE reports canonicalised.
 
 import (
+	"context"
+	"encoding/json"
 	"fmt"
 	"os"
+	"os/exec"
 	"path/filepath"
 	"strings"
+	"time"
 )
 
 func init() { subs["c19"] = c19 }
@@ -30,6 +34,89 @@ func c19Repo() string {
 
 func c19(c *Ctx) {
 	c19Facts(c)
+	c19Signer(c)
+	// runtime: supporting evidence, not part of the op lines
+	rounds := 6
+	if c.Tier == "thorough" {
+		rounds = 25
+	}
+	if v := os.Getenv("VERIF_C19_ROUNDS"); v != "" {
+		fmt.Sscan(v, &rounds)
+	}
+	if rounds > 0 {
+		c19RunHammer(c, os.Args[0], "plain", rounds, 240*time.Second)
+	}
+	if c.Tier == "thorough" && os.Getenv("VERIF_C19_NORACE") == "" {
+		c19Race(c)
+	}
+}
+
+// c19RunHammer runs the hammer in a child process and folds its results into the parent's report.
+func c19RunHammer(c *Ctx, exe, mode string, rounds int, timeout time.Duration) (stderrTail string, ran bool) {
+	dir := filepath.Join(c.Out, "hammer-"+mode)
+	os.RemoveAll(dir)
+	os.MkdirAll(dir, 0755)
+	errFile := filepath.Join(dir, "stderr.txt")
+	ef, err := os.Create(errFile)
+	if err != nil {
+		c.Count("hammer-" + mode + ":inconclusive:cannot-create-stderr-file")
+		return "", false
+	}
+	ctx, cancel := context.WithTimeout(context.Background(), timeout)
+	defer cancel()
+	cmd := exec.CommandContext(ctx, exe, "c19-hammer", "-seed", fmt.Sprint(c.Seed), "-n", fmt.Sprint(rounds), "-tier", c.Tier, "-out", dir)
+	cmd.Stderr = ef
+	cmd.Stdout = ef
+	cmd.Env = append(os.Environ(), "GORACE=halt_on_error=0 history_size=4", "GOTRACEBACK=single")
+	runErr := cmd.Run()
+	ef.Close()
+	raw, _ := os.ReadFile(errFile)
+	text := string(raw)
+	tail := text
+	if len(tail) > 3000 {
+		tail = tail[len(tail)-3000:]
+	}
+	var res c19HResult
+	if b, err := os.ReadFile(filepath.Join(dir, "hammer.json")); err == nil {
+		json.Unmarshal(b, &res)
+	}
+	for k, v := range res.Counts {
+		c.Stats[strings.Replace(k, "hammer:", "hammer-"+mode+":", 1)] += v
+	}
+	c.Stats["hammer-"+mode+":rounds-completed"] += res.Completed
+	c.Stats["hammer-"+mode+":rounds-inconclusive(timeout)"] += res.Inconclusive
+	for _, f := range res.Fails {
+		c.Fail(f.Sig, fmt.Sprintf("[%s hammer, round %d, seed %d] %s", mode, f.Round, c.Seed, f.Detail), map[string]interface{}{"rerun": fmt.Sprintf("hx c19-hammer -seed %d -n %d -out DIR", c.Seed, rounds)})
+	}
+	switch {
+	case ctx.Err() != nil:
+		// the whole child timed out: inconclusive, never a failure
+		c.Count("hammer-" + mode + ":inconclusive:child-timeout")
+	case runErr != nil && !res.Done:
+		// the process died: Go fatal error (concurrent map read/write …) or an unrecovered panic in an engine goroutine
+		kind := "exit"
+		first := ""
+		for _, l := range strings.Split(text, "\n") {
+			if strings.HasPrefix(l, "fatal error:") || strings.HasPrefix(l, "panic:") {
+				first = l
+				break
+			}
+		}
+		if strings.Contains(first, "concurrent map") {
+			kind = "concurrent-map"
+		} else if first != "" {
+			kind = "engine-goroutine"
+		}
+		// the frames of /repo at the top of the crashing goroutine
+		var frames []string
+		for _, l := range strings.Split(text, "\n") {
+			if strings.HasPrefix(l, "github.com/LemoFoundationLtd/lemochain-core/") && len(frames) < 6 {
+				frames = append(frames, strings.TrimPrefix(l, "github.com/LemoFoundationLtd/lemochain-core/"))
+			}
+		}
+		c.Fail("c19/panic/"+kind, fmt.Sprintf("[%s hammer, seed %d] child process died (%v) after %d completed rounds: %s; top /repo frames: %s", mode, c.Seed, runErr, res.Completed, first, strings.Join(frames, " <- ")), map[string]interface{}{"stderr_tail": tail})
+	}
+	return text, true
 }
 
 func c19Facts(c *Ctx) {
